@@ -137,6 +137,30 @@ Theorem C05_recursive_calls_each_count_once : forall h mid i l st args,
 Proof. exact wrapped_step_counted. Qed.
 Print Assumptions C05_recursive_calls_each_count_once.
 
+(* the same with a resolved step that takes no parameters (`def step(self)`): nested self.step() calls are accepted *)
+Theorem C05_recursive_calls_each_count_once_arity0 : forall h mid i l st args,
+  resolve h 0 = Some (i, l) -> arity_ok l [] = true -> arity_ok l args = true ->
+  res_status (wrapped_step h mid st args) <> OutOfFuel ->
+  tops i (res_events (wrapped_step h mid st args)) =
+    zrange (steps st + 1) (steps (res_state (wrapped_step h mid st args))) /\
+  steps st + 1 <= steps (res_state (wrapped_step h mid st args)) /\
+  steps (res_state (wrapped_step h mid st args)) =
+    steps st + Z.of_nat (length (tops i (res_events (wrapped_step h mid st args)))).
+Proof. exact wrapped_step_counted_gen. Qed.
+Print Assumptions C05_recursive_calls_each_count_once_arity0.
+
+(* recursion with a resolved step that HAS parameters (`def step(self, a, b)`): a nested self.step() - at whatever
+   level of the hierarchy it is made - is counted, then rejected by the call protocol before any user code, and
+   the TypeError unwinds the outer call.  So every body that ran saw steps+1, and the call leaves steps+1 (no nested
+   call was made) or steps+2 with TypeError (the outer call and the one rejected nested call, each counted once). *)
+Theorem C05_recursive_fixed_arity : forall h mid i l st args,
+  resolve h 0 = Some (i, l) -> arity_ok l [] = false ->
+  let x := wrapped_step h mid st args in
+  Forall (fun e => e_seen e = steps st + 1 /\ e_inst e = mid) (res_events x) /\
+  (steps (res_state x) = steps st + 1 \/ (steps (res_state x) = steps st + 2 /\ res_status x = ErrType)).
+Proof. exact wrapped_step_fixed_arity. Qed.
+Print Assumptions C05_recursive_fixed_arity.
+
 (* T1: the shape of the source the model transcribes, re-read from the source on this run:
    __init__ binds _user_step to self.step and then shadows step on the instance; _wrapped_step is
    `self.steps += 1` followed by `self._user_step( *args, **kwargs)`; run_model is `while self.running: self.step()`;
@@ -198,3 +222,16 @@ Example C05_example_recursion :
   tops 0 (res_events (wrapped_step ex_rec 0 {| steps := 1; running := true |} [9])) = [2; 3; 4; 5; 6] /\
   tops 1 (res_events (wrapped_step ex_rec 0 {| steps := 1; running := true |} [9])) = [4; 5; 6; 6; 6].
 Proof. vm_compute. repeat split; reflexivity. Qed.
+
+(* fixed arity 2 at the top, the variadic super-called level recurses: the nested call is counted and rejected *)
+Definition ex_rec2 : hierarchy :=
+  [ {| l_def := true; l_arity := 2; l_super := true; l_fwd := true; l_stop := None; l_raise := None; l_rec := None |};
+    {| l_def := true; l_arity := -1; l_super := false; l_fwd := false; l_stop := None; l_raise := None; l_rec := Some 9 |} ].
+Example C05_example_fixed_arity_recursion :
+  arity_ok (nth 0 ex_rec2 (nth 1 ex_rec2 (nth 1 ex_rec2 (nth 1 ex_rec2
+     {| l_def := false; l_arity := 0; l_super := false; l_fwd := false; l_stop := None; l_raise := None; l_rec := None |})))) [] = false /\
+  wrapped_step ex_rec2 0 {| steps := 3; running := true |} [7; 8] =
+    ({| steps := 5; running := true |},
+     [ {| e_inst := 0; e_lvl := 0; e_seen := 4; e_run := true; e_args := [7; 8] |};
+       {| e_inst := 0; e_lvl := 1; e_seen := 4; e_run := true; e_args := [7; 8] |} ], ErrType).
+Proof. vm_compute. split; reflexivity. Qed.
